@@ -11,7 +11,7 @@ from .c20 import oracle_key
 class C08(PipelineProp):
     pid = "C08"
     design_ref = "6/C08"
-    required_theorems = ['C08_whole_scaffold_bait', 'C08_trim_large_noop', 'C08_null_bait_result', 'C08_junction_set_reverse']
+    required_theorems = ['C08_whole_scaffold_bait', 'C08_trim_large_noop', 'C08_null_bait_result', 'C08_junction_set_reverse', 'C08_null_map_identity', 'C08_hypotheses_satisfiable', 'C08_legacy_refuted']
     n_quick = 400
 
     def rule(self):
@@ -23,7 +23,11 @@ class C08(PipelineProp):
         )
 
     def gen_case(self, rng):
-        inp = P.gen_input(rng, style=rng.choice(["tpf", "fasta"]))
+        inp = P.gen_input(rng, style=rng.choice(["tpf", "fasta"]), double_gaps=rng.choice([0.0, 0.0, 0.3]))
+        if rng.random() < 0.15:
+            # a short scaffold whose two contigs are separated by two gap rows: often shorter than a texel
+            k = len(inp["scaffolds"]) + 1
+            inp["scaffolds"].append({"name": f"scf{k}x", "rows": [["F", f"dg{k}a", 1, rng.choice([1, 3, 40]), 1, []], ["G", rng.choice([1, 2, 10]), "scaffold"], ["G", rng.choice([1, 5]), "contig"], ["F", f"dg{k}b", 1, rng.choice([1, 2, 30]), rng.choice([1, -1]), []]]})
         total = sum(P.sc_len(sc) for sc in inp["scaffolds"])
         bpt_str = P.choose_bpt(rng, total)
         bpt = Fraction(bpt_str)
